@@ -151,7 +151,7 @@ Proof. intro H. apply emit_ok in H. destruct H as (? & _ & ->). reflexivity. Qed
 Lemma efrag_breaks_all :
   (forall e, efrag e = true -> forall st st', compile_expr true e st = COk st' -> cbreaks st' = cbreaks st) /\
   (forall l, efrag_list l = true -> forall st st', compile_elist true l st = COk st' -> cbreaks st' = cbreaks st) /\
-  (forall p : eplist, True) /\ (forall o : oexpr, True).
+  (forall l, efrag_pairs l = true -> forall st st', compile_pairs true l st = COk st' -> cbreaks st' = cbreaks st) /\ (forall o : oexpr, True).
 Proof.
   apply expr_mutind; try (intros; exact I).
   - intros f HF st st' HC; simpl in HC. unfold emit_const in HC. apply emit_breaks in HC. exact HC.
@@ -159,7 +159,8 @@ Proof.
   - intros s HF st st' HC; simpl in HC. unfold emit_const in HC. apply emit_breaks in HC. exact HC.
   - intros n HF st st' HC; simpl in HC. unfold compile_var in HC. destruct (st_resolve n (csym st)); [|discriminate]. destruct (sscp s); apply emit_breaks in HC; exact HC.
   - intros l IHl HF st st' HC; simpl in HC. cbn [efrag] in HF. bind_inv HC. rewrite <- (IHl HF _ _ H). apply emit_breaks in HC. exact HC.
-  - intros kvs _ np HF. discriminate HF.
+  - intros kvs IHl np HF st st' HC; simpl in HC. cbn [efrag] in HF. apply andb_true_iff in HF. destruct HF as [_ HF].
+    bind_inv HC. rewrite <- (IHl HF _ _ H). apply emit_breaks in HC. exact HC.
   - intros op e IHe HF st st' HC; simpl in HC. assert (HF1 : efrag e = true) by (destruct op; simpl in HF; congruence).
     bind_inv HC. rewrite <- (IHe HF1 _ _ H). destruct op; try discriminate HC; apply emit_breaks in HC; exact HC.
   - intros op lt rt e1 IHe1 e2 IHe2 HF st st' HC; simpl in HC.
@@ -175,6 +176,10 @@ Proof.
   - intros _ st st' HC. simpl in HC. inversion HC; reflexivity.
   - intros e IHe t IHt HF st st' HC. cbn [efrag_list] in HF. apply andb_true_iff in HF. destruct HF as [HF1 HF2].
     simpl in HC. bind_inv HC. rewrite <- (IHe HF1 _ _ H). apply (IHt HF2 _ _ HC).
+  - intros _ st st' HC. simpl in HC. inversion HC; reflexivity.
+  - intros k e IHe t IHt HF st st' HC. cbn [efrag_pairs] in HF. apply andb_true_iff in HF. destruct HF as [HF1 HF2].
+    cbn [compile_pairs] in HC. bind_inv HC. bind_inv H. unfold emit_const in H0. apply emit_breaks in H0. cbn [cbreaks] in H0.
+    rewrite (IHt HF2 _ _ HC), (IHe HF1 _ _ H). exact H0.
 Qed.
 
 Lemma efrag_breaks : forall e, efrag e = true -> forall st st', compile_expr true e st = COk st' -> cbreaks st' = cbreaks st.
